@@ -159,6 +159,14 @@ def t_flow(sess, flow, pair):
             u, L = vel.cell_2d(a, b, amp, dlen)
         else:
             u, L = vel.corner_2d(a, b, amp)
+        # another flow of the same family -- other axes, other parameters -- is built (and used) after the one under test
+        # and before it is evaluated: the callables must keep their own axes and parameters (nothing shared, last call does not win)
+        oa, ob_ = {"X": ("Y", "Z"), "Y": ("Z", "X"), "Z": ("X", "Y")}[a]
+        if oa == b:
+            oa, ob_ = ob_, oa
+        other = {"simple_shear_2d": lambda: vel.simple_shear_2d(oa, a, 3.5), "cell_2d": lambda: vel.cell_2d(b, a, 0.25, 7.0), "corner_2d": lambda: vel.corner_2d(b, a, 2.5)}[flow]()
+        other[0](0.5, np.array([0.3, -0.2, 0.1]))
+        other[1](0.5, np.array([0.3, -0.2, 0.1]))
         xs, xd = _position(True)
         _, xp = _position(False)
         if flow == "corner_2d":
